@@ -304,6 +304,17 @@ func (g *histGen) appPath() (string, string) {
 	rng := g.s.r.Rng
 	p := pick(rng, []string{"/", "/app", "/app/page", "/a%20b/c", "/files/a%2Fb", "/x;y=1", "/é"})
 	q := pick(rng, []string{"", "", "a=1", "a=1&b=%26%3D", "q=é+x", "redirect=https%3A%2F%2Fevil%2F"})
+	// long targets (deep links, search pages, SAML-style blobs in the query): a few KiB and, rarely, tens of KiB
+	switch rng.Intn(12) {
+	case 0:
+		p = "/deep/" + strings.Repeat("segment-0123456789/", 230+rng.Intn(60)) + "leaf"
+	case 1:
+		q = "blob=" + strings.Repeat("QUJDREVGR0g", 400+rng.Intn(300)) + "&tail=1"
+	case 2:
+		if rng.Intn(3) == 0 {
+			q = "big=" + strings.Repeat("x", 20000+rng.Intn(20000))
+		}
+	}
 	if q != "" {
 		return p + "?" + q, q
 	}
